@@ -100,6 +100,15 @@ func TestCompileSecurity(t *testing.T) { campaign(t, gen.Security()) }
 func TestCompileNames(t *testing.T)    { campaign(t, gen.Names()) }
 func TestCompileWide(t *testing.T)     { campaign(t, gen.Wide()) }
 func TestCompileGRPC(t *testing.T)     { campaign(t, gen.GRPCProfile()) }
+func TestCompileStreams(t *testing.T)  { campaign(t, streamsProfile()) }
+
+// streamsProfile is the streams profile of C02/C03 plus declared errors:
+// websocket streaming endpoints, their example servers and CLI.
+func streamsProfile() gen.Profile {
+	p := gen.Streams()
+	p.Errors = true
+	return p
+}
 
 // TestCompileFixed pushes the fixed matrix designs (every primitive kind in
 // every parameter location alone in its method, the parameter / view /
